@@ -29,7 +29,7 @@ Qed.
 Lemma cb_a64_progress md rel rg m ra rg' :
   fst (cb_a64 md false rel rg m) = CbUncacheable ra rg' -> asp rg < asp rg'.
 Proof.
-  unfold cb_a64. destruct (mdat md); [discriminate|]. unfold cb_dwarf.
+  unfold cb_a64. destruct (mdat md) as [|p sec|]; [discriminate| |discriminate]. unfold cb_dwarf.
   assert (W : forall f svma, with_fde arule aregs row_step_a64 uncovered_rule_a64 f svma false rg m
                               = CbUncacheable ra rg' -> asp rg < asp rg').
   { intros f svma. unfold with_fde. destruct (row_for_address f svma) as [rw|]; [|discriminate].
